@@ -7,7 +7,7 @@ Every random choice comes from one SplitMix64 state, so a trace is reproducible 
   own    operation whose (projected) output the property under check speaks about
 """
 
-GEN_VERSION = 18
+GEN_VERSION = 19
 
 MASK64 = (1 << 64) - 1
 
@@ -263,6 +263,15 @@ def warmup(t, n, regs=("A", "B", "S")):
 def gen_C01(t, n):
     r = t.rng
     for _ in range(n):
+        if r.chance(3):
+            # a clone is a map like any other: keep mutating and observing it
+            t.emit("copy A B", "own")
+            t.present["B"] = set(t.present["A"])
+            for _ in range(1 + r.below(4)):
+                t.bg("B", role="own")
+            t.emit("iter B", "own")
+            t.emit("get_key_value B %s" % t.existing("B"), "own")
+            t.emit("iter A", "own")
         reg = r.weighted([("A", 6), ("S", 2)])
         t.bg(reg, role="own")
         if r.chance(15) and reg == "A":
@@ -669,8 +678,9 @@ def gen_C19(t, n):
     for _ in range(n):
         c = r.below(100)
         if c < 25:
-            t.emit("copy A B", "own")
+            t.emit("%s A B" % ("copy_from" if r.chance(35) else "copy"), "own")
             t.emit("eq A B", "own")
+            t.emit("len B", "own")
             if r.chance(70):
                 t.bg("B", role="own")
                 t.emit("eq A B", "own")
